@@ -265,6 +265,85 @@ def r3(R, m):
             "rings built from gethkls(limit + tol)", "rings are not built from the reflection list up to limit + tol")
 
 
+def tiling_witness(fn):
+    """gethkls scans its index box in blocks: `for lo in range(a, b, n)` with an inner extent  lo : U  (a slice or a range whose lower
+    end is the loop variable).  The integer expressions a, b, n, U are evaluated (pure arithmetic of the source: + - * // min max int
+    and names bound once to such expressions) for small box half-widths; the tiles must cover every index of range(a, b) exactly
+    once.  Returns (line, text, why) for the first tiling that lists an index twice or not at all, None when there is no tiling or
+    it cannot be evaluated (nothing is concluded then)."""
+    defs = {}
+    for s_ in ast.walk(fn):
+        if isinstance(s_, ast.Assign) and len(s_.targets) == 1 and isinstance(s_.targets[0], ast.Name):
+            defs.setdefault(s_.targets[0].id, []).append(s_.value)
+
+    class No(Exception):
+        pass
+
+    def ev(e, env, depth=0):
+        if depth > 8:
+            raise No()
+        if isinstance(e, ast.Constant) and isinstance(e.value, int) and not isinstance(e.value, bool):
+            return e.value
+        if isinstance(e, ast.Name):
+            if e.id in env:
+                return env[e.id]
+            if len(defs.get(e.id, [])) == 1:
+                return ev(defs[e.id][0], env, depth + 1)
+            raise No()
+        if isinstance(e, ast.UnaryOp) and isinstance(e.op, ast.USub):
+            return -ev(e.operand, env, depth)
+        if isinstance(e, ast.BinOp) and isinstance(e.op, (ast.Add, ast.Sub, ast.Mult, ast.FloorDiv)):
+            a, b = ev(e.left, env, depth), ev(e.right, env, depth)
+            if isinstance(e.op, ast.FloorDiv) and b == 0:
+                raise No()
+            return {ast.Add: a + b, ast.Sub: a - b, ast.Mult: a * b}.get(type(e.op)) if not isinstance(e.op, ast.FloorDiv) else a // b
+        if isinstance(e, ast.Call) and src(e.func) in ("min", "max") and e.args and not e.keywords:
+            return (min if src(e.func) == "min" else max)(ev(a, env, depth) for a in e.args)
+        if isinstance(e, ast.Call) and src(e.func) == "int" and len(e.args) == 1:
+            t = src(e.args[0]).replace(" ", "")
+            if "dsmax" in t and "lattice_parameters" in t:
+                return env["__half__"]
+            return ev(e.args[0], env, depth)
+        raise No()
+
+    for loop in ast.walk(fn):
+        if not (isinstance(loop, ast.For) and isinstance(loop.target, ast.Name) and isinstance(loop.iter, ast.Call) and src(loop.iter.func) == "range"
+                and len(loop.iter.args) == 3):
+            continue
+        lo = loop.target.id
+        ext = []
+        for n_ in ast.walk(loop):
+            if isinstance(n_, ast.Slice) and isinstance(n_.lower, ast.Name) and n_.lower.id == lo and n_.upper is not None and n_.step is None:
+                ext.append((n_.upper, n_.lower.lineno))
+            if isinstance(n_, ast.Call) and src(n_.func) in ("range", "np.arange", "numpy.arange") and len(n_.args) == 2 and isinstance(n_.args[0], ast.Name) \
+                    and n_.args[0].id == lo:
+                ext.append((n_.args[1], n_.lineno))
+        for up, line in ext:
+            for half in (1, 2, 3, 5, 7, 40, 63, 64, 65, 100, 129):
+                try:
+                    env = {"__half__": half - 1}
+                    a, b, n = (ev(x, env) for x in loop.iter.args)
+                    if n <= 0:
+                        raise No()
+                    seen = {}
+                    for v in range(a, b, n):
+                        e2 = dict(env)
+                        e2[lo] = v
+                        for i in range(v, ev(up, e2)):
+                            seen[i] = seen.get(i, 0) + 1
+                except No:
+                    break
+                twice = sorted(i for i, c in seen.items() if c > 1 and a <= i < b)
+                missing = sorted(i for i in range(a, b) if i not in seen)
+                if twice or missing:
+                    return (line, "for %s in %s: %s:%s" % (lo, src(loop.iter), lo, src(up)),
+                            "with a box half-width of %d the blocks %s step %d with inner extent [%s, %s) visit %s: every reflection on such a plane is "
+                            "%s, so the list does not contain each allowed reflection exactly once"
+                            % (half, src(loop.iter), n, lo, src(up), ("index %d twice" % twice[0]) if twice else ("no block for index %d" % missing[0]),
+                               "listed twice (and counted twice in its ring)" if twice else "lost"))
+    return None
+
+
 def r4(R, m):
     R.rule("C03.R4", "gethkls keeps a reflection only under 'ds < dsmax' and 'not self.absent(h,k,l)', skips (000), enumerates a box that "
                      "contains every reflection below the limit (half-width >= dsmax * cell length per axis, no early exit), sorts the list "
@@ -398,6 +477,10 @@ def r4(R, m):
                 "contain the start, so whole runs of reflections below the limit are never visited (and a row that looks empty ends the walk "
                 "over k early): the list is incomplete for most triclinic cells")
     else:
+        tw = tiling_witness(fn)
+        if tw is not None:
+            line, text, why = tw
+            R.check(False, "C03.R4", REL, line, "unitcell.gethkls", "tiles of the index box: %s" % text, why)
         R.shape(False, "C03.R4", REL, "unitcell.gethkls", "the enumeration of (h, k, l): three range loops over a box, or the axis walk")
     srt = [s for s in fn.body if isinstance(s, ast.Expr) and src(s.value) == "peaks.sort()"]
     store = [s for s in fn.body if isinstance(s, ast.Assign) and src(s.targets[0]) == "self.peaks" and src(s.value) == "peaks"]
